@@ -41,8 +41,6 @@ InCore(ts) == \A i \in 1..Len(ts) : ts[i] \in CoreTokens
 Keep3(ts) == IF Thorough THEN InCore(ts) \/ Hash3(ts) % Den3 = 0
              ELSE InCore(ts) /\ Hash3(ts) % Den3 = 0
 MaxLen == 3
-TokCases == {<<t1>> : t1 \in Tokens} \cup {<<t1, t2>> : t1 \in Tokens, t2 \in Tokens}
-            \cup {ts \in {<<t1, t2, t3>> : t1 \in Tokens, t2 \in Tokens, t3 \in Tokens} : Keep3(ts)}
 
 (***************************************************************************)
 (* (b) ASTs                                                                  *)
@@ -128,17 +126,15 @@ PoolT1(f, sort) == TLeaves
 PoolT2(f, sort) == TRepsUsed
 
 L0 == ELeaves \cup SLeaves \cup TLeaves \cup TReps \cup {ImportSelf}
-L1 == Apply(EForms, Pool1) \cup Apply(TypeForms, PoolT1)
-L2 == Apply(EForms, Pool2) \cup Apply(TypeForms, PoolT2)
-AstCases == L0 \cup L1 \cup L2
+\* depth 2 (L1) = every constructor over the leaves, restricted depth 3 (L2) = every constructor over
+\* the representatives; both are enumerated by the actions below, never as one big set
+InL1(n) == /\ ~IsLeaf(n) /\ n.f \in EForms
+           /\ \A i \in DOMAIN n.cs : n.cs[i] \in Pool1(n.f, n.f.sorts[i])
 
 (***************************************************************************)
 (* folding sub-suite                                                         *)
 (***************************************************************************)
 AllSeeds == FoldSeeds \cup {FoldSeed(ts, "none") : ts \in UnfoldedSeeds}
-FoldStates == {[k |-> "fold", ws |-> <<>>, seed |-> sd] : sd \in AllSeeds}
-              \cup {[k |-> "fold", ws |-> <<w>>, seed |-> sd] : w \in Wrappers, sd \in AllSeeds}
-              \cup {[k |-> "fold", ws |-> <<w2, w1>>, seed |-> sd] : w2 \in Wrappers, w1 \in InnerWrappers, sd \in AllSeeds}
 FoldRow(s) ==
   IF s.ws = <<>> THEN [ws |-> <<"bare">>, ts |-> s.seed.ts,
                        expect |-> IF s.seed.class = "none" THEN "any" ELSE "Error:" \o s.seed.class]
@@ -150,32 +146,46 @@ FoldRow(s) ==
 (***************************************************************************)
 Init == st = [k |-> "start"]
 
+\* The actions quantify over the constant pools instead of building successor *sets*: TLC sorts
+\* every set it enumerates, and sets of tens of thousands of records are slow to sort.
 AppendToken ==
-  /\ \/ st.k = "start" /\ st' \in {[k |-> "toks", ts |-> <<tk>>] : tk \in Tokens}
-     \/ /\ st.k = "toks" /\ Len(st.ts) < MaxLen
-        /\ st' \in {[k |-> "toks", ts |-> Append(st.ts, tk)] : tk \in Tokens}
-  /\ Len(st'.ts) = 3 => Keep3(st'.ts)
+  \E tk \in Tokens :
+    /\ \/ st.k = "start" /\ st' = [k |-> "toks", ts |-> <<tk>>]
+       \/ st.k = "toks" /\ Len(st.ts) < MaxLen /\ st' = [k |-> "toks", ts |-> Append(st.ts, tk)]
+    /\ Len(st'.ts) = 3 => Keep3(st'.ts)
 
-StartLeaf == st.k = "start" /\ st' \in {[k |-> "ast", a |-> l] : l \in L0}
+StartLeaf == st.k = "start" /\ \E l \in L0 : st' = [k |-> "ast", a |-> l]
+
+\* "apply a constructor of FS to the AST under construction": the new node has `a` in slot i and
+\* members of the pools in the other slots
+Others(i) == CASE i = 1 -> <<2, 3>> [] i = 2 -> <<1, 3>> [] i = 3 -> <<1, 2>>
+Grow(a, FS, Pool(_, _)) ==
+  \E f \in FS : \E i \in 1..Len(f.sorts) :
+    /\ a \in Pool(f, f.sorts[i])
+    /\ CASE Len(f.sorts) = 1 -> st' = [k |-> "ast", a |-> Node(f, <<a>>)]
+         [] Len(f.sorts) = 2 ->
+              \E c \in Pool(f, f.sorts[3 - i]) :
+                 st' = [k |-> "ast", a |-> Node(f, IF i = 1 THEN <<a, c>> ELSE <<c, a>>)]
+         [] Len(f.sorts) = 3 ->
+              \E c \in Pool(f, f.sorts[Others(i)[1]]), d \in Pool(f, f.sorts[Others(i)[2]]) :
+                 st' = [k |-> "ast", a |-> Node(f, [j \in 1..3 |-> IF j = i THEN a
+                                                      ELSE IF j = Others(i)[1] THEN c ELSE d])]
 
 ApplyConstructor ==
   /\ st.k = "ast" /\ IsLeaf(st.a)
-  /\ st' \in {[k |-> "ast", a |-> n] :
-                n \in GrowWith(st.a, EForms, Pool1) \cup GrowWith(st.a, TypeForms, PoolT1)}
+  /\ (Grow(st.a, EForms, Pool1) \/ Grow(st.a, TypeForms, PoolT1))
 
-\* from a representative of depth 2 the walk first has to reach it: a representative that is a
-\* node is reached by ApplyConstructor from one of its leaves (it is a member of L1)
+\* a representative that is a node is itself reached by ApplyConstructor from one of its leaves
 ApplyConstructorRep ==
   /\ st.k = "ast" /\ st.a \in EReps \cup SReps \cup TRepsUsed
-  /\ st' \in {[k |-> "ast", a |-> n] :
-                n \in GrowWith(st.a, EForms, Pool2) \cup GrowWith(st.a, TypeForms, PoolT2)}
+  /\ (Grow(st.a, EForms, Pool2) \/ Grow(st.a, TypeForms, PoolT2))
 
-PickSeed == st.k = "start" /\ st' \in {[k |-> "fold", ws |-> <<>>, seed |-> sd] : sd \in AllSeeds}
+PickSeed == st.k = "start" /\ \E sd \in AllSeeds : st' = [k |-> "fold", ws |-> <<>>, seed |-> sd]
 Wrap ==
   /\ st.k = "fold"
-  /\ \/ st.ws = <<>> /\ st' \in {[st EXCEPT !.ws = <<w>>] : w \in Wrappers}
-     \/ /\ Len(st.ws) = 1 /\ st.ws[1] \in InnerWrappers
-        /\ st' \in {[st EXCEPT !.ws = <<w2, st.ws[1]>>] : w2 \in Wrappers}
+  /\ \E w \in Wrappers :
+       \/ st.ws = <<>> /\ st' = [st EXCEPT !.ws = <<w>>]
+       \/ Len(st.ws) = 1 /\ st.ws[1] \in InnerWrappers /\ st' = [st EXCEPT !.ws = <<w, st.ws[1]>>]
 
 Next == AppendToken \/ StartLeaf \/ ApplyConstructor \/ ApplyConstructorRep \/ PickSeed \/ Wrap
 Spec == Init /\ [][Next]_st
@@ -213,37 +223,37 @@ ContextInv == st.k = "start" =>
   /\ \A f1 \in Forms : \A f2 \in Forms : f1.name = f2.name => f1 = f2
   /\ \A f \in Forms : \A j \in 1..Len(f.tpl) : f.tpl[j] \in Slots => SlotIx(f.tpl[j]) <= Len(f.sorts)
   /\ \A f \in Forms : \A i \in 1..Len(f.sorts) : \E j \in 1..Len(f.tpl) : f.tpl[j] \in Slots /\ SlotIx(f.tpl[j]) = i
-  /\ EReps \subseteq L0 \cup L1 /\ SReps \subseteq L0 \cup L1
+  /\ \A rep \in EReps \cup SReps : rep \in L0 \/ InL1(rep)      \* every representative is reached
+  /\ TRepsUsed \subseteq L0
 
 (***************************************************************************)
-(* emission                                                                  *)
+(* emission: every state is a case; it is written, with the prediction, the  *)
+(* moment TLC discovers it (invariants are evaluated exactly once per        *)
+(* distinct state).  The driver checks lines written = distinct states - 1.  *)
 (***************************************************************************)
 Out == IOEnv.VERIF_OUT
-AstSeq == SetToSeq(AstCases)
-TokCaseSeq == SetToSeq(TokCases)
-FoldCaseSeq == SetToSeq(FoldStates)
-CtxSeq == SetToSeq(Contexts \cup {TypeContext})
+AppendLine(file, row) ==
+  Serialize(ToJson(row) \o "\n", Out \o "/" \o file,
+            [format |-> "TXT", charset |-> "UTF-8", openOptions |-> <<"WRITE", "CREATE", "APPEND">>]).exitValue = 0
 
 AstRow(a) == [suite |-> IF a = ImportSelf THEN "import_self" ELSE IF a.sort = "T" THEN "type" ELSE "ast",
               form |-> IF IsLeaf(a) THEN "leaf" ELSE a.f.name, sort |-> a.sort, depth |-> Depth(a),
               ts |-> Render(a), expect |-> "any"]
 
+EmitInv ==
+  CASE st.k = "toks" -> AppendLine("syntax_tok.ndjson", [suite |-> "tok", ts |-> st.ts, expect |-> "any"])
+    [] st.k = "ast"  -> AppendLine("syntax_ast.ndjson", AstRow(st.a))
+    [] st.k = "fold" -> LET r == FoldRow(st) IN
+                        AppendLine("syntax_fold.ndjson", [suite |-> "fold", ws |-> r.ws, ts |-> r.ts, expect |-> r.expect])
+    [] OTHER -> TRUE
+
+CtxSeq == SetToSeq(Contexts \cup {TypeContext})
 Emit ==
   /\ TLCGet("stats").distinct > 0
-  /\ ndJsonSerialize(Out \o "/syntax_tok.ndjson",
-        [i \in 1..Len(TokCaseSeq) |-> [suite |-> "tok", ts |-> TokCaseSeq[i], expect |-> "any"]])
-  /\ ndJsonSerialize(Out \o "/syntax_ast.ndjson", [i \in 1..Len(AstSeq) |-> AstRow(AstSeq[i])])
-  /\ ndJsonSerialize(Out \o "/syntax_fold.ndjson",
-        [i \in 1..Len(FoldCaseSeq) |-> LET r == FoldRow(FoldCaseSeq[i]) IN
-            [suite |-> "fold", ws |-> r.ws, ts |-> r.ts, expect |-> r.expect]])
   /\ ndJsonSerialize(Out \o "/syntax_contexts.ndjson",
         [i \in 1..Len(CtxSeq) |-> CtxSeq[i]] \o
         <<[name |-> "$host_prelude", pre |-> HostPrelude, post |-> <<>>],
           [name |-> "$tokens", pre |-> TokSeq, post |-> SetToSeq(CoreTokens)]>>)
-  /\ PrintT(<<"COUNTS", Len(TokCaseSeq), Len(AstSeq), Len(FoldCaseSeq), Cardinality(Tokens),
-              Cardinality(CoreTokens), Cardinality(Forms), Cardinality(L0), Cardinality(L1), Cardinality(L2)>>)
-  \* the emitted sets are exactly the reachable states (+1 for the start state)
-  /\ Assert(TLCGet("stats").distinct = 1 + Len(TokCaseSeq) + Len(AstSeq) + Len(FoldCaseSeq),
-            <<"emitted cases differ from reachable states", TLCGet("stats").distinct,
-              Len(TokCaseSeq), Len(AstSeq), Len(FoldCaseSeq)>>)
+  /\ PrintT(<<"COUNTS", TLCGet("stats").distinct, Cardinality(Tokens), Cardinality(CoreTokens),
+              Cardinality(Forms), Cardinality(L0), Cardinality(Wrappers), Cardinality(AllSeeds)>>)
 =============================================================================
